@@ -27,6 +27,8 @@ FLAVOURS = {
     "clang20": ("clang++", ["-std=c++20", "-O1", "-fsanitize=address,undefined",
                             "-fno-sanitize-recover=undefined", "-DNDEBUG"]),
     "nocon20": ("g++", ["-std=c++20", "-O1", "-DNDEBUG", "-DGCH_DISABLE_CONCEPTS"]),
+    # the header's GCH_EXCEPTIONS-off branches (fault-free plans only: nothing can be injected)
+    "nx20": ("g++", ["-std=c++20", "-O1", "-fsanitize=address", "-DNDEBUG", "-fno-exceptions"]),
     "nostrong20": ("g++", ["-std=c++20", "-O1", "-fsanitize=address", "-DNDEBUG",
                            "-DGCH_NO_STRONG_EXCEPTION_GUARANTEES"]),
 }
